@@ -13,6 +13,9 @@ import (
 
 var vsymC16Content = 4 // length of the signed content
 
+// vEmbedded, when set, is the content vThirdPartyBlob places in the blob instead of the signed one.
+var vEmbedded []byte
+
 var vOIDSigningCertV2 = []byte{0x06, 0x0b, 0x2a, 0x86, 0x48, 0x86, 0xf7, 0x0d, 0x01, 0x09, 0x10, 0x02, 0x2f}
 
 var vOIDSMIMECap = []byte{0x06, 0x09, 0x2a, 0x86, 0x48, 0x86, 0xf7, 0x0d, 0x01, 0x09, 0x0f}
@@ -46,7 +49,11 @@ func vThirdPartyBlob(signer crypto.Signer, certRaw, issuer, serial, content []by
 	algSHA := vDER(0x30, vCat(vOIDSHA256, null))
 	ci := vOIDData
 	if attached {
-		ci = vCat(ci, vDER(0xa0, vDER(0x04, content)))
+		emb := content
+		if vEmbedded != nil {
+			emb = vEmbedded // the blob carries other content than the one that was digested and signed
+		}
+		ci = vCat(ci, vDER(0xa0, vDER(0x04, emb)))
 	}
 	si := vDER(0x30, vCat([]byte{0x02, 0x01, 0x01}, vDER(0x30, vCat(issuer, vRefInteger(serial))), algSHA,
 		vDER(0xa0, attrsInner), vDER(0x30, vCat(vOIDRSA, vNULL)), vDER(0x04, sig)))
